@@ -5,15 +5,19 @@ R08.2 column-space agreement between frames and width vectors (FULL = original c
 REDUCED = displayed columns); R08.3 width slicing with the removed index set of the original frame;
 R08.4 normal form of Utils._col_widths and of the twip conversion of boundaries; R08.5 default /
 broadcast / inherited col_rel_width in RTFDocument.__init__.
+
+R08.1(b) and R08.3 are structural / dataflow rules; the others read the terms of a symbolic evaluation
+(tablecore.TDT) of the function concerned: every input is an uninterpreted symbol, loops over symbolic
+collections are one generic iteration, all valuations of the consulted conditions are enumerated.
 """
 from __future__ import annotations
 
 import ast
 
-from ..pm import dotted, unparse, walk_no_nested
+from ..pm import AnalysisError, dotted, unparse, walk_no_nested
 from ..report import Ctx
 from . import tablecore as T
-
+from .tablecore import AttrSym, CallSym, Carried, CompSym, ElemSym, FmtSym, Init, LinSym, OpSym, SubSym, Sym, lin_of, lin_sub, path_of, tparts
 
 
 ROW_ENCODERS = {
@@ -47,46 +51,16 @@ def _is_page_width(e: ast.AST, fn: ast.AST):
 
 def r08_1(ctx: Ctx) -> None:
     from ..callgraph import CallGraph
-    from ..pm import AnalysisError
     pm = ctx.pm
-    T.scenario_note(ctx, "R08.1", "TableAttributes._encode / encode_spanning_row / encode_column_header / encode_footnote / encode_source",
-                    "for every width value handed in (widths are opaque atoms or exact rationals that are only passed on)",
-                    {"_encode": "3x2 segment x 3 attribute shapes x cell_nrow unset/set", "encode_spanning_row": "column 1, attribute shapes 7x3 and 1x1",
-                     "row encoders": "one component with 3 relative widths, rendered as a table", "evaluations": 6 + 2 + 3})
-    ctx.explain("[R08.1] (b) the width argument at the call sites of the row encoders is decided structurally (the expression is expanded through temporaries and "
-                "if/else arms and classified by its leaves): that part does not depend on any witness shape.")
-    # (a) the right boundary of every cell that is built: col_widths[j] for data/header/footnote rows (TableAttributes._encode), the table
-    #     width for a spanning row; read off the interpreted scenarios
+    T.declare(ctx)
+    ctx.explain("[R08.1] (a) the width argument of the generic Cell built by TableAttributes._encode / encode_spanning_row is read off their symbolic evaluation; (b) the width "
+                "argument at the call sites of the row encoders is decided structurally (the expression is expanded through temporaries and if/else arms and classified by "
+                "its leaves); (c) inside encode_column_header / encode_footnote / encode_source every path that encodes table rows is evaluated symbolically: the widths "
+                "handed to _encode are Utils._col_widths(the component's own col_rel_width, the width parameter); (d) the same for the body in _encode_body_section.")
+    # (a) the right boundary of every cell that is built
+    T.cell_width_agreement(ctx, "R08.1")
     enc = pm.func("TableAttributes._encode")
-    n_cells, bad = 0, []
-    for rec in T.encode_scenarios(pm):
-        if "error" in rec:
-            ctx.gap("R08.1", f"TableAttributes._encode could not be interpreted ({rec['error'][:100]}): cell widths undetermined")
-            break
-        for i, row in enumerate(rec["rows"]):
-            cells = row.attrs.get("row_cells")
-            for j, cell in enumerate(cells if isinstance(cells, (list, tuple)) else []):
-                w = cell.attrs.get("width") if isinstance(cell, T.Obj) else None
-                n_cells += 1
-                if isinstance(w, T.Sym):
-                    ctx.gap("R08.1", f"TableAttributes._encode: width of cell ({i}, {j}) could not be determined")
-                elif j >= len(rec["widths"]) or w != rec["widths"][j]:
-                    bad.append(f"cell ({i}, {j}) ends at {w!r}, col_widths = {rec['widths']!r}")
-    ctx.instance("R08.1", enc.where(), f"TableAttributes._encode: Cell(width=col_widths[j]) on {n_cells} interpreted cells: {not bad}")
-    if bad:
-        ctx.violation("R08.1", enc.short, "Cell width " + bad[0][:80], enc.where(), f"{enc.short}: a cell's right boundary is not the cumulative column width of its column: {bad[0]}")
     sp = pm.func("RTFEncodingService.encode_spanning_row")
-    for rec in T.spanning_scenarios(pm):
-        if "error" in rec:
-            ctx.gap("R08.1", f"encode_spanning_row could not be interpreted ({rec['error'][:100]}): cell width undetermined")
-            continue
-        cells = rec["row"].attrs.get("row_cells")
-        ws = [c.attrs.get("width") for c in cells] if isinstance(cells, (list, tuple)) and all(isinstance(c, T.Obj) for c in cells) else None
-        ctx.instance("R08.1", sp.where(), f"{sp.short} ({rec['shape']} attributes): Cell widths {ws!r} for page_width {rec['width']!r}")
-        if ws is None or any(isinstance(w, T.Sym) for w in ws):
-            ctx.gap("R08.1", "encode_spanning_row: the cells of the spanning row could not be determined")
-        elif ws != [rec["width"]]:
-            ctx.violation("R08.1", sp.short, f"Cell width {ws!r}"[:80], sp.where(), f"{sp.short}: the spanning row is not one cell ending at the table width it was given (cells end at {ws!r})")
     cg = CallGraph(pm)
     covered = cg.reachable([enc.short, sp.short])
     for fi in pm.iter_funcs():
@@ -130,286 +104,467 @@ def r08_1(ctx: Ctx) -> None:
                     elif kind == "?":
                         ctx.gap("R08.1", f"{fi.short}: the width `{why[:60]}` handed to {nm} could not be traced to rtf_page.col_width")
     # (c) inside the encoders the width reaches Utils._col_widths unchanged, together with the component's own col_rel_width
-    W = T._Fr(19, 2)
-    for short, wparam in (("RTFEncodingService.encode_column_header", "page_col_width"), ("RTFEncodingService.encode_footnote", "page_col_width"),
-                          ("RTFEncodingService.encode_source", "page_col_width")):
+    for short, wparam, comp_pos in (("RTFEncodingService.encode_column_header", "page_col_width", 1), ("RTFEncodingService.encode_footnote", "page_col_width", 0),
+                                    ("RTFEncodingService.encode_source", "page_col_width", 0)):
         fi = pm.func(short)
-        ps = [a.arg for a in fi.node.args.args]
-        rel = [T.AV("col_rel_width", 0, c) for c in range(3)]
-        comp_cls = {"encode_column_header": "RTFColumnHeader", "encode_footnote": "RTFFootnote", "encode_source": "RTFSource"}[fi.name]
-        comp = T.Obj("component", cls=comp_cls, col_rel_width=list(rel), as_table=True, text=["x", "y", "z"], border_bottom=[[""]])
-        args = {ps[0]: T.Sym("self", fi.cls)}
-        if fi.name == "encode_column_header":
-            args.update({ps[1]: T.Frame("header", range(1), ["col_1", "col_2", "col_3"]), ps[2]: comp} if len(ps) > 2 else {})
-        else:
-            args.update({ps[1]: comp} if len(ps) > 1 else {})
-            args.update({p: v for p, v in (("page_number", 1), ("border_style", None)) if p in ps})
-        if wparam not in ps:
-            ctx.gap("R08.1", f"{short}: parameter {wparam} not found")
+        ps = T._pos_params(fi)
+        if wparam not in ps or len(ps) <= comp_pos:
+            ctx.gap("R08.1", f"{short}: parameter {wparam} / the component parameter not found")
             continue
-        args[wparam] = W
+        p_comp = ps[comp_pos]
         try:
-            runs = T.Scen(pm, markers={"_col_widths": "scalar", "_encode": "list", "_set_default": "self", "_encode_text": "list"}).runs(fi, args)
+            dt = T.TDT(pm, watch={"_col_widths", "_encode", "_encode_text", "DataFrame"}, passthrough={"_set_default"})
+            leaves = T.whole(dt, fi)
+            T.cover(ctx, f"{short} (whole body over a symbolic component and width)", leaves)
         except AnalysisError as e:
-            ctx.gap("R08.1", f"{short} could not be interpreted on a mock component: {e}")
+            ctx.gap("R08.1", f"{short} could not be evaluated: {e}")
             continue
-        for _v, r in runs:
-            if r.raised:
-                ctx.gap("R08.1", f"{short} raises {r.raised} on a mock component")
-                continue
-            encs = [m for m in r.trace if m.name == "_encode"]
-            calls = [m for m in r.trace if m.name == "_col_widths"]
-            ctx.instance("R08.1", fi.where(), f"{short}: {[repr(c)[:90] for c in calls]} -> {[repr(m.arg(1, 'col_widths'))[:40] for m in encs]}")
-            if not encs:
-                ctx.gap("R08.1", f"{short}: no table row is encoded for a component rendered as a table")
-                continue
-            for m in encs:
-                cw = m.arg(1, "col_widths")
-                if not (isinstance(cw, T.Mark) and cw.name == "_col_widths"):
-                    ctx.violation("R08.1", short, "no _col_widths", fi.where(), f"{short} no longer derives boundaries from relative widths and the table width: rows are encoded with widths `{cw!r}`"[:300])
+        seen = set()
+        n_enc = 0
+        for v, env, eff, outcome in leaves:
+            encs = [e for e in eff if e[0] == "call" and e[1] == "_encode"]
+            for e in encs:
+                cw = T._kwarg(e, "col_widths", 1)
+                key = path_of(cw)
+                if key in seen:
                     continue
-                r_, w_ = cw.arg(0, "rel_widths"), cw.arg(1, "col_width")
-                if isinstance(w_, T.Sym) or isinstance(r_, T.Sym):
-                    ctx.gap("R08.1", f"{short}: arguments of Utils._col_widths could not be determined")
+                seen.add(key)
+                ctx.instance("R08.1", fi.where(e[5]), f"{short}: rows encoded with widths `{path_of(cw)[:110]}`")
+                if cw is None:
+                    if any(k == f"{wparam} is None" and x for k, x in v.items()):
+                        continue                        # no width given at all: not a table layout this property speaks about (call sites always pass one, see (b))
+                    ctx.violation("R08.1", short, "no _col_widths", fi.where(e[5]), f"{short} encodes table rows without column boundaries although a table width was given")
                     continue
-                if w_ != W:
-                    ctx.violation("R08.1", short, f"_col_widths width {w_!r}"[:80], fi.where(), f"{short}: column boundaries are scaled to `{w_!r}` instead of the table width it was given")
-                if r_ != rel:
-                    ctx.violation("R08.1", short, f"_col_widths rel {r_!r}"[:80], fi.where(), f"{short}: boundaries are not derived from the component's own col_rel_width")
+                n_enc += 1
+                if not (isinstance(cw, CallSym) and cw.meth == "_col_widths"):
+                    if isinstance(cw, Sym) and not path_of(cw).startswith("?"):
+                        ctx.violation("R08.1", short, "no _col_widths", fi.where(e[5]), f"{short} no longer derives boundaries from relative widths and the table width: rows are encoded with widths `{path_of(cw)[:120]}`")
+                    else:
+                        ctx.gap("R08.1", f"{short}: widths `{path_of(cw)[:60]}` handed to _encode could not be evaluated")
+                    continue
+                r_, w_ = T._term_arg(cw, "rel_widths", 0), T._term_arg(cw, "col_width", 1)
+                w_ = T.unwrap(w_)
+                r_ = T.unwrap(r_)
+                if not (isinstance(w_, Init) and w_.path == wparam):
+                    if isinstance(w_, (int, float)) or (isinstance(w_, (OpSym, LinSym)) and wparam in T.roots(w_)) or isinstance(w_, AttrSym):
+                        ctx.violation("R08.1", short, f"_col_widths width {path_of(w_)[:60]}", fi.where(e[5]), f"{short}: column boundaries are scaled to `{path_of(w_)[:80]}` instead of the table width it was given")
+                    else:
+                        ctx.gap("R08.1", f"{short}: the width `{path_of(w_)[:60]}` handed to Utils._col_widths could not be evaluated")
+                own = isinstance(r_, AttrSym) and r_.attr == "col_rel_width" and isinstance(r_.base, Init) and r_.base.path == p_comp
+                ones = isinstance(r_, OpSym) and r_.op == "*" and any(isinstance(x, list) and x == [1] for x in (r_.left, r_.right)) and not any(isinstance(p, AttrSym) and p.attr == "col_rel_width" for p in tparts(r_))
+                if not (own or ones):
+                    foreign = [p for p in tparts(r_) if isinstance(p, AttrSym) and p.attr == "col_rel_width" and not (isinstance(p.base, Init) and p.base.path == p_comp)]
+                    if foreign:
+                        ctx.violation("R08.1", short, f"_col_widths rel {path_of(r_)[:60]}", fi.where(e[5]), f"{short}: boundaries are not derived from the component's own col_rel_width but from `{path_of(r_)[:80]}`")
+                    else:
+                        ctx.gap("R08.1", f"{short}: relative widths `{path_of(r_)[:60]}` not recognised")
+        if not n_enc:
+            ctx.gap("R08.1", f"{short}: no path that encodes table rows with column widths was re-identified")
     T.body_section_widths(ctx, "R08.1")
     ctx.floor("R08.1", 13)
 
 
 def r08_2(ctx: Ctx) -> None:
-    """auto-populated header text lives in REDUCED column space; its widths must too.  _render_column_headers is interpreted for
-    a header without text (automatic column names) on a page whose page_by column was removed: the header handed to
-    encode_column_header must carry one relative width per displayed column, taken from the page's reduced attributes, and
-    the document's table width."""
-    from ..pm import AnalysisError
+    """auto-populated header text lives in REDUCED column space; its widths must too.  One generic iteration of the header loop of
+    _render_column_headers (symbolic header, document and page): on every path where the header text is filled in from the page's
+    displayed columns, the header's col_rel_width is re-bound to the page's (reduced) attributes - unless the path established that
+    the page carries no usable widths."""
     pm = ctx.pm
+    T.declare(ctx)
     fi = pm.func("PageRenderer._render_column_headers")
-    ps = [a.arg for a in fi.node.args.args]
-    if len(ps) != 3:
+    fn = fi.node
+    ps = T._pos_params(fi)
+    if len(ps) != 2:
         ctx.gap("R08.2", "_render_column_headers: signature (self, document, page) not recognised")
         return
-    full = [T.AV("body_width", 0, c) for c in range(3)]
-    T.scenario_note(ctx, "R08.2", "PageRenderer._render_column_headers", "for every width entry and column name",
-                    {"document": "one header without text, body as_colheader, 3 columns of which 1 (page_by) removed", "page": "3 rows x 2 displayed columns, first page", "evaluations": 1})
-    reduced = [T.AV("page_width", 0, c) for c in range(2)]
-    W = T._Fr(19, 2)
-
-    def mk():
-        header = T.Obj("header", cls="RTFColumnHeader", text=None, col_rel_width=list(full), border_top=[[""]])
-        body = T.Obj("rtf_body", cls="RTFBody", as_colheader=True, page_by=["g"], col_rel_width=list(full))
-        doc = T.Obj("document", cls="RTFDocument", rtf_column_header=[header], rtf_body=body,
-                    rtf_page=T.Obj("rtf_page", cls="RTFPage", col_width=W, border_first="", width=T._Fr(17, 2)), df=T.Frame("table", range(6), ["g", "a", "b"]))
-        page = T.Obj("page", cls="PageContext", data=T.Frame("page", range(3), ["a", "b"]), is_first_page=True, is_last_page=False, page_number=1,
-                     table_attrs=T.Obj("table_attrs", cls="RTFBody", col_rel_width=list(reduced)), col_widths=[1, 2])
-        page.attrs["final_body_attrs"] = page.attrs["table_attrs"]
-        return doc, page
-    doc, page = mk()
-    try:
-        runs = T.Scen(pm, markers={"encode_column_header": "list", "update_row": "scalar", "DataFrame": "scalar"}).runs(fi, {ps[0]: T.Sym("self", fi.cls), ps[1]: doc, ps[2]: page})
-    except AnalysisError as e:
-        ctx.gap("R08.2", f"_render_column_headers could not be interpreted on a mock page: {e}")
+    p_doc, p_page = ps
+    calls = [c for c in walk_no_nested(fn) if isinstance(c, ast.Call) and dotted(c.func).split(".")[-1] == "encode_column_header"]
+    loops = [lp for lp in walk_no_nested(fn) if isinstance(lp, ast.For) and any(any(x is c for x in ast.walk(lp)) for c in calls)]
+    loops = [lp for lp in loops if not any(m is not lp and any(x is lp for x in ast.walk(m)) for m in loops)]
+    if len(loops) != 1:
+        ctx.gap("R08.2", f"_render_column_headers: {len(loops)} loops that encode a header (1 expected)")
         return
-    n = 0
-    for _v, r in runs:
-        if r.raised:
-            ctx.gap("R08.2", f"_render_column_headers raises {r.raised} on a mock page")
+    lp = loops[0]
+    try:
+        dt = T.TDT(pm, watch={"encode_column_header", "update_row", "DataFrame"}, inline={"is_single_body"})
+        leaves = T.run_block(dt, T.temps_for(fn, lp.body) + lp.body, T.sym_env(fi), fi)
+        T.cover(ctx, "PageRenderer._render_column_headers (one generic header of the header loop)", leaves)
+    except AnalysisError as e:
+        ctx.gap("R08.2", f"_render_column_headers: the header loop could not be evaluated: {e}")
+        return
+    page_cols = f"{p_page}.data.columns"
+    n_auto = 0
+    seen = set()
+    for v, env, eff, outcome in leaves:
+        encs = [e for e in eff if e[0] == "call" and e[1] == "encode_column_header"]
+        if not encs:
             continue
-        calls = [m for m in r.trace if m.name == "encode_column_header"]
-        if not calls:
-            ctx.gap("R08.2", "the automatic column header (`text is None and as_colheader`) is not encoded on a mock page: branch not re-identified")
+        text_stores = [e for e in eff if e[0] == "store" and e[2] == "text" and any(isinstance(p, AttrSym) and p.path == page_cols for p in tparts(e[3]))]
+        if not text_stores:
             continue
-        for m in calls:
-            n += 1
-            text, hdr, width = m.arg(0, "df"), m.arg(1, "rtf_attrs"), m.arg(2, "page_col_width")
-            widths = hdr.attrs.get("col_rel_width") if isinstance(hdr, T.Obj) else None
-            auto = isinstance(text, T.Mark) and text.name == "DataFrame"
-            ctx.instance("R08.2", fi.where(), f"auto header text {text!r}"[:120] + f"; header widths {widths!r}; table width {width!r}")
-            if width != W:
-                ctx.violation("R08.2", fi.short, "encode_column_header args " + repr(width)[:60], fi.where(), f"a header row is not encoded in the document's table width (rtf_page.col_width) but in `{width!r}`")
-            if not auto:
-                ctx.gap("R08.2", f"the text of the automatic header `{text!r}`[:60] could not be traced to the page's displayed columns")
+        n_auto += 1
+        hdr = text_stores[0][1]
+        wst = [e for e in eff if e[0] == "store" and e[2] == "col_rel_width" and path_of(e[1]) == path_of(hdr)]
+        if wst:
+            val = wst[-1][3]
+            srcs = [p for p in tparts(val) if isinstance(p, AttrSym) and p.attr == "col_rel_width"]
+            key = path_of(val)
+            if key in seen:
                 continue
-            cols = None
-            for a in text.args[:1]:
-                if isinstance(a, list) and len(a) == 1 and isinstance(a[0], list):
-                    cols = a[0]
-            if cols is not None and cols != ["a", "b"]:
-                ctx.violation("R08.2", fi.short, "auto header text " + repr(cols)[:60], fi.where(), f"the automatic header shows {cols!r}, not the page's displayed columns ['a', 'b']")
-            if not isinstance(widths, list) or any(isinstance(x, T.Sym) for x in widths):
-                ctx.gap("R08.2", "the relative widths of the automatic header could not be determined")
-            elif len(widths) != 2:
-                ctx.violation("R08.2", fi.short, "auto header widths stay in full column space", fi.where(),
-                              "the automatic header takes its texts from the page's displayed columns (page_by/subline_by columns removed) but keeps the col_rel_width it "
-                              "inherited from the body for ALL columns: after column removal the header cells no longer line up with the data columns and end at a different right edge")
-            elif widths != reduced:
-                ctx.violation("R08.2", fi.short, "auto header widths from " + repr(widths)[:60], fi.where(), f"automatic header widths are `{widths!r}`, not the page's reduced attributes {reduced!r}")
-    if not n and not ctx.deferred_errors:
-        ctx.gap("R08.2", "_render_column_headers: no header was encoded in the scenario")
+            seen.add(key)
+            ctx.instance("R08.2", fi.where(wst[-1][4]), f"automatic header (text from {page_cols}): col_rel_width <- `{path_of(val)[:80]}`")
+            if any(p_page in T.roots(p) and any(isinstance(q, AttrSym) and q.attr in ("table_attrs", "final_body_attrs") for q in tparts(p)) for p in srcs):
+                continue
+            if any(p_doc in T.roots(p) for p in srcs) or not srcs:
+                ctx.violation("R08.2", fi.short, "auto header widths from " + path_of(val)[:60], fi.where(wst[-1][4]),
+                              f"automatic header widths are `{path_of(val)[:80]}`, not the page's reduced attributes (page.table_attrs.col_rel_width): the header texts are the displayed columns")
+            else:
+                ctx.gap("R08.2", f"_render_column_headers: widths `{path_of(val)[:60]}` given to the automatic header could not be traced to the page's attributes")
+            continue
+        # no re-binding of the widths on this path: acceptable only if the path found the page without usable widths
+        excused = False
+        for key, val in v.items():
+            rec = dt.cmp.get(key)
+            if rec is None:
+                continue
+            about = [p for x in (rec[1], rec[2]) for p in tparts(x) if isinstance(p, AttrSym) and p.attr in ("table_attrs", "final_body_attrs", "col_rel_width") and p_page in T.roots(p)]
+            if about and ((rec[0] == "truth" and not val) or (rec[0] == "is None" and val) or (rec[0] is ast.Eq and not val) or (rec[0] is ast.NotEq and val)):
+                excused = True
+        if ("plain", excused) in seen:
+            continue
+        seen.add(("plain", excused))
+        ctx.instance("R08.2", fi.where(text_stores[0][4]), f"automatic header (text from {page_cols}) keeps its inherited col_rel_width on the path [{T._fmt(v)[:120]}]; page has no usable widths: {excused}")
+        if not excused:
+            ctx.violation("R08.2", fi.short, "auto header widths stay in full column space", fi.where(text_stores[0][4]),
+                          "the automatic header takes its texts from the page's displayed columns (page_by/subline_by columns removed) but keeps the col_rel_width it "
+                          "inherited from the body for ALL columns: after column removal the header cells no longer line up with the data columns and end at a different right edge")
+    if not n_auto and not ctx.deferred_errors:
+        ctx.gap("R08.2", "the automatic column header (text filled in from the page's displayed columns) was not re-identified on any path")
+
+
+def _monomial(t):
+    """(numerator factor paths, denominator factor paths) of a product / quotient term"""
+    if isinstance(t, OpSym) and t.op == "*":
+        a, b = _monomial(t.left), _monomial(t.right)
+        return a[0] + b[0], a[1] + b[1]
+    if isinstance(t, OpSym) and t.op == "/":
+        a, b = _monomial(t.left), _monomial(t.right)
+        return a[0] + b[1], a[1] + b[0]
+    if isinstance(t, LinSym) and len(t.lin) == 1 and t.lin[0][0] != "" and len(t.terms) == 1:
+        k = t.lin[0][1]
+        a = _monomial(t.terms[0])
+        return a[0] + ([repr(k)] if k != 1 else []), a[1]
+    return [path_of(t)], []
 
 
 def r08_4(ctx: Ctx) -> None:
-    """Utils._col_widths returns the running sum of rel_width_i * col_width / sum(rel_widths) in column order (so the last
-    boundary is col_width), and a cell's \\cellx is round(width * 1440).  Both functions are interpreted at test points
-    (exact rationals); agreement at generic points decides equality of the rational functions."""
-    from fractions import Fraction as F
-    from ..pm import AnalysisError
+    """Utils._col_widths returns, in column order, the running sum of rel_width_i * col_width / sum(rel_widths) (so the last boundary is
+    col_width), and a cell's \\cellx is round(width * 1440).  Both are compared as symbolic expressions: one generic element of
+    rel_widths, accumulator symbolic on entry (0 before the loop), the emitted boundary = accumulator + w * col_width / sum(rel_widths) =
+    the accumulator's new value; the \\cellx argument is the shared inch->twip conversion (inlined) of self.width."""
     pm = ctx.pm
+    T.declare(ctx)
     fi = pm.func("Utils._col_widths")
-    ps = [a.arg for a in fi.node.args.args]
-    points = [([F(2), F(3), F(5), F(7)], F(11)), ([F(1)], F(17, 2)), ([F(1, 3), F(4), F(5, 2)], F(25, 4)), ([F(1), F(1)], F(6))]
-    ctx.extra.setdefault("scenarios", {})["R08.4 Utils._col_widths / Cell._as_rtf"] = {"_col_widths test points (rel_widths, col_width)": len(points), "column counts": [4, 1, 3, 2], "cell widths": 4}
-    ctx.explain("[R08.4] Utils._col_widths and Cell._as_rtf: " + T.ABSTRACTION + "; here the numbers are NOT abstract: the syntax tree is evaluated at exact rational test "
-                "points (4 width vectors of 1-4 columns, 4 cell widths) and compared with the closed form. This is a bounded witness set (agreement of two rational "
-                "functions at generic points), not a symbolic proof for all widths or column counts.")
-    ctx.assume("R08.4: verdict established at 4 (rel_widths, col_width) points and 4 cell widths only; rounding behaviour is probed at 1.0005 in and 1/3 in")
-    bad, undecided = [], None
-    for rel, w in points:
-        if len(ps) != 2:
-            undecided = "signature (rel_widths, col_width) not recognised"
-            break
+    ps = T._pos_params(fi)
+    done = False
+    if len(ps) != 2:
+        ctx.gap("R08.4", "Utils._col_widths: signature (rel_widths, col_width) not recognised")
+    else:
+        p_rel, p_w = ps
         try:
-            runs = T.Scen(pm).runs(fi, {ps[0]: list(rel), ps[1]: w})
+            dt = T.TDT(pm, watch={"append", "extend"})
+            leaves = T.whole(dt, fi)
+            T.cover(ctx, "Utils._col_widths (whole body; one generic relative width, accumulator symbolic on entry)", leaves)
         except AnalysisError as e:
-            undecided = str(e)
-            break
-        if len(runs) != 1 or runs[0][1].raised:
-            undecided = f"{len(runs)} paths / raises {runs[0][1].raised if runs else None}"
-            break
-        got = runs[0][1].ret
-        got = list(got) if isinstance(got, (list, tuple)) else got
-        want, acc = [], F(0)
-        for x in rel:
-            acc += x * w / sum(rel)
-            want.append(acc)
-        if not isinstance(got, list) or any(isinstance(x, T.Sym) or not isinstance(x, (int, float, F)) for x in got):
-            undecided = f"result `{got!r}`[:60] is not a list of numbers"
-            break
-        if len(got) != len(want) or any(abs(float(a) - float(b)) > 1e-9 for a, b in zip(got, want)):
-            bad.append(f"_col_widths({[str(x) for x in rel]}, {w}) = {[round(float(x), 4) for x in got]}, expected {[round(float(x), 4) for x in want]}")
-    ctx.instance("R08.4", fi.where(), f"_col_widths: cumulative sum of width*col_width/sum(rel_widths) over rel_widths in order at {len(points)} test points: {not bad and not undecided}")
-    if undecided:
-        ctx.gap("R08.4", f"Utils._col_widths could not be interpreted: {undecided}")
-    elif bad:
-        ctx.violation("R08.4", fi.short, "formula", fi.where(), "_col_widths is no longer the running sum of rel_width_i * col_width / sum(rel_widths) in column order (last boundary = col_width): " + bad[0])
+            leaves = []
+            ctx.gap("R08.4", f"Utils._col_widths could not be evaluated: {e}")
+        for v, env, eff, outcome in leaves:
+            ret = T._ret(outcome)
+            E = elem = src = new_acc = None
+            if isinstance(ret, CompSym) and ret.kind == "list":
+                E, elem, src = ret.elt, ret.var, ret.source
+                acc = [p for p in tparts(E) if isinstance(p, Carried)]
+                new_acc = env.get(acc[0].path) if acc else None
+            elif isinstance(ret, list) and len(ret) == 1:
+                sps = [sp for sp in T.loop_spans(eff) if any(x is sp["elem"] for x in tparts(ret[0]))]
+                if len(sps) == 1:
+                    E, elem, src = ret[0], sps[0]["elem"], sps[0]["it"]
+                    acc = [p for p in tparts(E) if isinstance(p, Carried)]
+                    new_acc = sps[0]["end_env"].get(acc[0].path) if acc else None
+            r0 = T.unwrap(ret, names=("list", "tuple"))
+            if E is None and isinstance(r0, CallSym) and r0.recv is None and r0.meth == "accumulate" and len(r0.args) == 1 and not r0.kw and isinstance(r0.args[0], CompSym) \
+                    and r0.args[0].elt is not None:
+                # itertools.accumulate(step for w in rel_widths): the running sums of the steps, in order, starting from the first step
+                comp = r0.args[0]
+                ctx.assume("R08.4: itertools.accumulate(xs) yields the running sums x0, x0+x1, ... in order")
+                acc = Carried("running sum", None, 0)
+                E = T.LinSym(f"{path_of(comp.elt)} + running sum", None, tuple(sorted({path_of(comp.elt): 1, acc.path: 1}.items())), tuple(sorted([comp.elt, acc], key=path_of))) \
+                    if isinstance(comp.elt, Sym) else None
+                elem, src, new_acc = comp.var, comp.source, E
+            if E is None:
+                ctx.gap("R08.4", f"Utils._col_widths: the result `{path_of(ret)[:80]}` is not a list built from one pass over the relative widths")
+                continue
+            done = True
+            ctx.instance("R08.4", fi.where(), f"_col_widths: generic boundary `{path_of(E)[:120]}` for `{path_of(elem)[:40]}`")
+            if not (isinstance(src, Init) and src.path == p_rel):
+                if isinstance(src, CallSym) and src.recv is None and src.meth in ("reversed", "sorted"):
+                    ctx.violation("R08.4", fi.short, "formula", fi.where(), f"_col_widths does not run over the relative widths in column order but over `{path_of(src)[:60]}`")
+                else:
+                    ctx.gap("R08.4", f"Utils._col_widths iterates `{path_of(src)[:60]}`, not recognisably the relative widths in order")
+                continue
+            lf = lin_of(E)
+            accs = [p for p in tparts(E) if isinstance(p, Carried)]
+            if lf is None:
+                ctx.gap("R08.4", f"Utils._col_widths: boundary `{path_of(E)[:80]}` is not a sum")
+                continue
+            if len(accs) != 1 or lf.get(accs[0].path) != 1:
+                ctx.violation("R08.4", fi.short, "formula", fi.where(), "_col_widths is no longer the running sum of rel_width_i * col_width / sum(rel_widths) in column order (last boundary = col_width): "
+                              f"the boundary `{path_of(E)[:100]}` does not add the column's width to the previous boundary")
+                continue
+            acc = accs[0]
+            if not (isinstance(acc.entry, (int, float)) and not isinstance(acc.entry, bool) and acc.entry == 0):
+                ctx.violation("R08.4", fi.short, "formula", fi.where(), f"_col_widths: the running sum starts at `{path_of(acc.entry)[:30]}`, not at 0")
+                continue
+            if new_acc is None or path_of(new_acc) != path_of(E):
+                ctx.violation("R08.4", fi.short, "formula", fi.where(), "_col_widths is no longer the running sum of rel_width_i * col_width / sum(rel_widths): the boundary that is emitted "
+                              f"(`{path_of(E)[:70]}`) is not what the running sum is advanced to (`{path_of(new_acc)[:70]}`)")
+                continue
+            rest = lin_sub(lf, {acc.path: 1})
+            step = [t for t in (E.terms if isinstance(E, LinSym) else ()) if t.path in rest]
+            if len(rest) != 1 or len(step) != 1 or rest[step[0].path] != 1:
+                ctx.violation("R08.4", fi.short, "formula", fi.where(), f"_col_widths: a boundary is the previous one plus `{rest}`, expected plus rel_width * col_width / sum(rel_widths)")
+                continue
+            num, den = _monomial(step[0])
+            num, den = [x for x in num if x not in ("1", "1.0")], [x for x in den if x not in ("1", "1.0")]
+            total = f"sum({p_rel})"
+            den = [total if x == f"float({total})" else x for x in den]
+            if sorted(num) == sorted([elem.path, p_w]) and den == [total]:
+                pass
+            elif set(num + den) <= {elem.path, p_w, total} or (any(x.replace(".", "").replace("-", "").isdigit() for x in num + den) and set(x for x in num + den if not x.replace(".", "").replace("-", "").isdigit()) <= {elem.path, p_w, total}):
+                ctx.violation("R08.4", fi.short, "formula", fi.where(), f"_col_widths: the width added per column is `{path_of(step[0])[:80]}`, expected rel_width * col_width / sum(rel_widths) (so that the last boundary equals col_width)")
+            else:
+                ctx.gap("R08.4", f"Utils._col_widths: the width added per column `{path_of(step[0])[:80]}` could not be compared with rel_width * col_width / sum(rel_widths)")
+    if not done and not ctx.deferred_errors and not any(f.rule == "R08.4" for f in ctx.findings):
+        ctx.gap("R08.4", "Utils._col_widths: no path could be verified")
+    # \cellx
     c = pm.func("Cell._as_rtf")
-    cps = [a.arg for a in c.node.args.args]
-    bad, undecided = [], None
-    for w in (F(3, 2), F(10005, 10000), F(25, 4), F(1, 3)):
-        me = T.Obj("cell", cls="Cell", width=w, border_left=None, border_right=None, border_top=None, border_bottom=None, vertical_justification=None,
-                   text=T.Obj("text", cls="TextContent"))
-        try:
-            runs = T.Scen(pm).runs(c, {cps[0]: me})
-        except AnalysisError as e:
-            undecided = str(e)
-            break
-        if len(runs) != 1 or runs[0][1].raised or not isinstance(runs[0][1].ret, str):
-            undecided = f"{len(runs)} paths / result `{runs[0][1].ret if runs else None!r}`[:50]"
-            break
-        import re
-        out = runs[0][1].ret
-        m = re.findall(r"\\cellx(-?[0-9.]+|\S*)", out)
-        want = str(round(w * 1440))
-        if m != [want]:
-            bad.append(f"a cell of width {float(w):.4f} in is formatted as `{out[:60]}`, expected exactly one \\cellx{want}")
-    ctx.instance("R08.4", c.where(), f"\\cellx <- round(width * 1440) (the shared inch->twip conversion) at 4 widths: {not bad and not undecided}")
-    if undecided:
-        ctx.gap("R08.4", f"Cell._as_rtf could not be interpreted: {undecided}")
-    elif bad:
-        ctx.violation("R08.4", c.short, "cellx conversion", c.where(), "\\cellx is not the shared inch->twip conversion (round(width * 1440)) of the cell's cumulative width: " + bad[0])
+    try:
+        dt = T.TDT(pm, inline={"_inch_to_twip", "inch_to_twip"})
+        leaves = T.whole(dt, c)
+        T.cover(ctx, "Cell._as_rtf (whole body over a symbolic cell; unit conversion helpers inlined)", leaves)
+    except AnalysisError as e:
+        ctx.gap("R08.4", f"Cell._as_rtf could not be evaluated: {e}")
+        return
+    n = 0
+    seen = set()
+    for v, env, eff, outcome in leaves:
+        ret = T._ret(outcome)
+        if ret is None:
+            continue
+        pieces = []
+        for p in tparts(ret):
+            if isinstance(p, FmtSym):
+                for k, lit in enumerate(p.pieces):
+                    if isinstance(lit, str) and "\\cellx" in lit:
+                        pieces.append((lit, p.pieces[k + 1] if k + 1 < len(p.pieces) else None))
+            elif isinstance(p, OpSym) and p.op == "+" and isinstance(p.left, str) and "\\cellx" in p.left:
+                pieces.append((p.left, p.right))
+            elif isinstance(p, str) and "\\cellx" in p and not any(p is q[0] for q in pieces):
+                pass
+        n += 1
+        key = tuple(path_of(x[1]) for x in pieces)
+        if key in seen:
+            continue
+        seen.add(key)
+        ctx.instance("R08.4", c.where(), f"\\cellx argument(s): {[path_of(x[1])[:60] for x in pieces]}")
+        if len(pieces) != 1:
+            import re
+            fixed = [p for p in tparts(ret) if isinstance(p, str) and re.search(r"\\cellx-?[0-9]", p)]
+            if not pieces and fixed:
+                ctx.violation("R08.4", c.short, "cellx conversion", c.where(), f"\\cellx is the fixed text `{fixed[0][-20:]}`, not the conversion of the cell's cumulative width")
+            else:
+                ctx.gap("R08.4", f"Cell._as_rtf: {len(pieces)} \\cellx pieces in the result `{path_of(ret)[:80]}` (exactly one expected)")
+            continue
+        lit, arg = pieces[0]
+        if not lit.endswith("\\cellx"):
+            ctx.gap("R08.4", f"Cell._as_rtf: text `{lit[-20:]}` between \\cellx and its argument")
+            continue
+        t = arg
+        while isinstance(t, CallSym) and t.recv is None and t.meth in ("int", "str") and len(t.args) == 1:
+            t = t.args[0]
+        good = False
+        if isinstance(t, CallSym) and t.recv is None and t.meth == "round" and len(t.args) == 1:
+            num, den = _monomial(t.args[0])
+            width = [x for x in num if x.endswith(".width")]
+            good = len(width) == 1 and width[0] == f"{T._all_params(c)[0]}.width" and sorted(x for x in num if x not in width) == ["1440"] and not den
+        if good:
+            continue
+        if isinstance(t, Sym) and any(isinstance(p, AttrSym) and p.attr == "width" for p in tparts(t)) and not path_of(t).startswith("?"):
+            ctx.violation("R08.4", c.short, "cellx conversion", c.where(), f"\\cellx is `{path_of(arg)[:80]}`, not the shared inch->twip conversion round(width * 1440) of the cell's cumulative width")
+        else:
+            ctx.gap("R08.4", f"Cell._as_rtf: the \\cellx argument `{path_of(arg)[:60]}` could not be compared with round(width * 1440)")
+    if not n:
+        ctx.gap("R08.4", "Cell._as_rtf: no returning path was evaluated")
+
+
+def _zip_partner(t):
+    """(generic pair element, position) if t is component `position` of the generic element of a zip(...)"""
+    if isinstance(t, SubSym) and t.key in (0, 1) and isinstance(t.base, ElemSym):
+        src = t.base.source
+        if isinstance(src, CallSym) and src.recv is None and src.meth == "zip" and len(src.args) == 2:
+            return t.base, t.key
+    return None
 
 
 def r08_5(ctx: Ctx) -> None:
-    """RTFDocument.__init__ establishes col_rel_width: default [1]*ncol, a single value broadcast to ncol, headers without
-    widths inherit the widths of THEIR OWN section's body (after default/broadcast).  Interpreted on mock documents."""
-    from ..pm import AnalysisError
+    """RTFDocument.__init__ establishes col_rel_width: default [1]*ncol of the body's OWN frame, a single value broadcast to that ncol, and
+    headers without widths inherit the widths of THEIR OWN section's body (after default/broadcast).  Read off the stores into
+    `.col_rel_width` of a symbolic evaluation of the constructor (generic section of the zip of frames and bodies, generic header)."""
     pm = ctx.pm
+    T.declare(ctx)
     fi = pm.func("RTFDocument.__init__")
-    ps = [a.arg for a in fi.node.args.args]
-    given = [T.AV("given", 0, c) for c in range(3)]
-    T.scenario_note(ctx, "R08.5", "RTFDocument.__init__", "for every given width entry",
-                    {"documents": ["single section 3 columns: no widths / one width / widths given", "three sections (3, 2, 3 columns) with nested headers", "two sections with a flat header list"],
-                     "evaluations": 5})
+    try:
+        dt = T.TDT(pm, watch={"_apply_table_spacing", "_inch_to_twip", "__init__"})
+        leaves = T.whole(dt, fi)
+        T.cover(ctx, "RTFDocument.__init__ (whole body; generic section / generic header)", leaves)
+    except AnalysisError as e:
+        ctx.gap("R08.5", f"RTFDocument.__init__ could not be evaluated: {e}")
+        return
+    me = T._all_params(fi)[0] if T._all_params(fi) else "self"
+    seen = set()
+    kinds = set()
 
-    def frame(tag, ncol):
-        return T.Frame(tag, range(2), [f"c{j}" for j in range(ncol)])
+    def body_frame(b):
+        """the frame that belongs to the body term b (term), None if not recognised"""
+        if isinstance(b, AttrSym) and b.attr == "rtf_body" and isinstance(b.base, Init) and b.base.path == me:
+            return f"{me}.df"
+        zp = _zip_partner(b)
+        if zp is not None and zp[1] == 1:
+            elem = zp[0]
+            a0, a1 = elem.source.args
+            if path_of(a0) == f"{me}.df" and path_of(a1) == f"{me}.rtf_body":
+                return f"{elem.path}[0]"
+        return None
 
-    def body(name, w):
-        return T.Obj(name, cls="RTFBody", col_rel_width=w, page_by=None, subline_by=None, group_by=None)
-
-    def hdr(name, w=None):
-        return T.Obj(name, cls="RTFColumnHeader", col_rel_width=w, text=["x"])
-    k7, k5 = T.AV("k", 0, 7), T.AV("k", 0, 5)
-    scen = []
-    scen.append(("single section, no widths", dict(df=frame("t", 3), rtf_body=body("b", None), rtf_column_header=[hdr("h0"), hdr("h1", list(given))]),
-                 {"b": [1, 1, 1], "h0": [1, 1, 1], "h1": given}))
-    scen.append(("single section, one width for three columns", dict(df=frame("t", 3), rtf_body=body("b", [k5]), rtf_column_header=[hdr("h0")]),
-                 {"b": [k5, k5, k5], "h0": [k5, k5, k5]}))
-    scen.append(("single section, widths given", dict(df=frame("t", 3), rtf_body=body("b", list(given)), rtf_column_header=[hdr("h0")]), {"b": given, "h0": given}))
-    scen.append(("three sections (3, 2, 3 columns), nested headers",
-                 dict(df=[frame("s0", 3), frame("s1", 2), frame("s2", 3)], rtf_body=[body("b0", None), body("b1", [k7]), body("b2", list(given))],
-                      rtf_column_header=[[hdr("h00")], [hdr("h10"), hdr("h11", [k5, k5])], [None]]),
-                 {"b0": [1, 1, 1], "b1": [k7, k7], "b2": given, "h00": [1, 1, 1], "h10": [k7, k7], "h11": [k5, k5]}))
-    scen.append(("two sections, flat header list", dict(df=[frame("s0", 2), frame("s1", 3)], rtf_body=[body("b0", [k7]), body("b1", None)], rtf_column_header=[hdr("h0")]),
-                 {"b0": [k7, k7], "b1": [1, 1, 1], "h0": [k7, k7]}))
-    for title, conf, want in scen:
-        me = T.Obj("self", cls="RTFDocument", rtf_page=T.Obj("rtf_page", cls="RTFPage", width=T._Fr(17, 2), col_width=T._Fr(25, 4)), **conf)
-        sc = T.Scen(pm, markers={"super": "scalar", "__init__": "scalar", "_apply_table_spacing": "scalar", "_inch_to_twip": "scalar"})
-        try:
-            if not ps:
-                raise AnalysisError("signature not recognised")
-            runs = sc.runs(fi, {ps[0]: me, "data": {}})
-        except AnalysisError as e:
-            ctx.gap("R08.5", f"RTFDocument.__init__ could not be interpreted ({title}): {e}")
-            continue
-        for _v, r in runs:
-            if r.raised:
-                ctx.gap("R08.5", f"RTFDocument.__init__ raises {r.raised} ({title})")
+    def own_body(h):
+        """path of the body of the section the generic header h belongs to ('?' if not recognised)"""
+        if not isinstance(h, ElemSym):
+            return "?"
+        src = h.source
+        if isinstance(src, AttrSym) and src.path == f"{me}.rtf_column_header":
+            return "single-or-flat"
+        zp = _zip_partner(src)
+        if zp is not None and zp[1] == 0:
+            elem = zp[0]
+            a0, a1 = elem.source.args
+            if path_of(a0) == f"{me}.rtf_column_header" and path_of(a1) == f"{me}.rtf_body":
+                return f"{elem.path}[1]"
+        # a header of the generic section of the nested header list, not paired with the bodies by a zip
+        sec = src.base if isinstance(src, SubSym) and isinstance(src.base, ElemSym) else src
+        if isinstance(sec, ElemSym):
+            s2 = sec.source
+            if isinstance(s2, CallSym) and s2.recv is None and s2.meth == "enumerate" and s2.args:
+                s2 = s2.args[0]
+            if isinstance(s2, AttrSym) and s2.path == f"{me}.rtf_column_header":
+                return ("nested", sec)
+        return "?"
+    for v, env, eff, outcome in leaves:
+        body_vals: dict[str, object] = {}
+        for e in eff:
+            if not (e[0] == "store" and e[2] == "col_rel_width"):
                 continue
-            doc = sc.last_args[ps[0]]
-            objs = {}
-
-            def collect(v):
-                if isinstance(v, T.Obj):
-                    objs[v.name] = v
-                elif isinstance(v, (list, tuple)):
-                    for x in v:
-                        collect(x)
-            collect(doc.attrs.get("rtf_body"))
-            collect(doc.attrs.get("rtf_column_header"))
-            got = {k: (objs[k].attrs.get("col_rel_width") if k in objs else "?") for k in want}
-            ctx.instance("R08.5", fi.where(), f"RTFDocument.__init__ ({title}): col_rel_width {got!r}"[:290])
-            for k, w in want.items():
-                g = got[k]
-                if isinstance(g, T.Sym) or g == "?":
-                    ctx.gap("R08.5", f"RTFDocument.__init__ ({title}): col_rel_width of {k} could not be determined")
-                elif g != w:
-                    kind = "default" if w and all(x == 1 for x in w) and k.startswith("b") else "broadcast" if k.startswith("b") else "inherit"
-                    extra = ""
-                    if kind == "inherit":
-                        owner = [b for b, bw in want.items() if b.startswith("b") and bw == g]
-                        extra = f" (these are the widths of {owner[0]}: every section's header inherits the widths of one fixed section)" if owner else ""
-                    ctx.violation("R08.5", fi.short, f"col_rel_width {kind}: {k}", fi.where(),
-                                  f"RTFDocument.__init__ ({title}): {k}.col_rel_width becomes {g!r}, expected {w!r}{extra} "
-                                  "(default [1]*ncol, scalar broadcast to ncol, headers inherit a copy of their own body's widths)")
+            B, V, node = e[1], e[3], e[4]
+            key = (path_of(B), path_of(V))
+            first = key not in seen
+            seen.add(key)
+            fr = body_frame(B)
+            if fr is not None:
+                body_vals[path_of(B)] = V
+                if not first:
+                    continue
+                ok = False
+                if isinstance(V, OpSym) and V.op == "*":
+                    lst, cnt = (V.left, V.right) if not isinstance(V.left, (int,)) and T.frame_of_shape(V.right) is not None else (V.right, V.left)
+                    fs = T.frame_of_shape(cnt)
+                    kind = "default" if isinstance(lst, list) and lst == [1] else "broadcast" if isinstance(lst, AttrSym) and lst.attr == "col_rel_width" and path_of(lst.base) == path_of(B) else None
+                    if kind and fs is not None and fs[1] == 1:
+                        ctx.instance("R08.5", fi.where(node), f"col_rel_width {kind}: `{path_of(B)[:70]}` <- `{path_of(V)[:90]}`")
+                        if path_of(fs[0]) == fr:
+                            ok = True
+                            kinds.add((kind, "multi" if "∀" in fr else "single"))
+                        else:
+                            ok = True
+                            ctx.violation("R08.5", fi.short, f"col_rel_width {kind}: {path_of(B)[:60]}", fi.where(node),
+                                          f"RTFDocument.__init__: `{path_of(B)[:60]}`.col_rel_width is {kind}ed to the column count of `{path_of(fs[0])[:60]}`, not of the body's own frame `{fr[:60]}`")
+                    elif kind and fs is not None:
+                        ok = True
+                        ctx.violation("R08.5", fi.short, f"col_rel_width {kind}: {path_of(B)[:60]}", fi.where(node), f"RTFDocument.__init__: the {kind} of col_rel_width uses `{path_of(cnt)[:50]}`, the ROW count of the frame")
+                if not ok:
+                    ctx.gap("R08.5", f"RTFDocument.__init__: value `{path_of(V)[:70]}` stored as col_rel_width of `{path_of(B)[:50]}` not recognised as default [1]*ncol / broadcast")
+                continue
+            ob = own_body(B)
+            if ob == "?":
+                if first:
+                    ctx.gap("R08.5", f"RTFDocument.__init__: the component `{path_of(B)[:60]}` whose col_rel_width is set could not be classified (body / header of a section)")
+                continue
+            if not first:
+                continue
+            # inherited widths of a header
+            guarded = any((k == f"{path_of(B)}.col_rel_width is None" and x) or (k == f"bool({path_of(B)}.col_rel_width)" and not x) for k, x in v.items())
+            src_body = None
+            V0 = V
+            V = T.unwrap(V)
+            if isinstance(V, AttrSym) and V.attr == "col_rel_width":
+                src_body = V.base
+            else:
+                for bp, bv in body_vals.items():
+                    if bv is V or bv is V0:
+                        src_body = bp
+            sb = src_body if isinstance(src_body, str) else (path_of(src_body) if src_body is not None else None)
+            ctx.instance("R08.5", fi.where(node), f"col_rel_width inherit: header `{path_of(B)[:60]}` <- widths of `{(sb or path_of(V))[:70]}`")
+            if sb is None:
+                ctx.gap("R08.5", f"RTFDocument.__init__: the widths `{path_of(V)[:70]}` a header inherits could not be traced to a body")
+                continue
+            if isinstance(ob, tuple):
+                if any(x is ob[1] for x in tparts(src_body if not isinstance(src_body, str) else V)):
+                    ctx.gap("R08.5", f"RTFDocument.__init__: how `{sb[:60]}` selects the body of the header's own section could not be decided")
+                    continue
+                ctx.violation("R08.5", fi.short, f"col_rel_width inherit: {path_of(B)[:60]}", fi.where(node),
+                              f"RTFDocument.__init__: the headers of every section of the nested header list inherit the widths of `{sb[:70]}`, which does not depend on the section "
+                              "(a fixed body / a loop variable left over from an earlier loop); headers must inherit a copy of their own section's body widths")
+                continue
+            if ob == "single-or-flat":
+                good = sb in (f"{me}.rtf_body", f"{me}.rtf_body[0]")
+                kinds.add(("inherit", "single" if sb == f"{me}.rtf_body" else "flat"))
+            else:
+                good = sb == ob
+                kinds.add(("inherit", "multi"))
+            if not good:
+                stale = isinstance(src_body, Init) or (isinstance(src_body, Sym) and "∀" in sb and sb != ob)
+                ctx.violation("R08.5", fi.short, f"col_rel_width inherit: {path_of(B)[:60]}", fi.where(node),
+                              f"RTFDocument.__init__: a header without widths inherits the widths of `{sb[:70]}`, which is not the body of the header's own section"
+                              + (" (a loop variable left over from an earlier loop: every section's headers get the widths of one fixed section)" if stale else "")
+                              + "; headers must inherit a copy of their own body's widths")
+            elif not guarded:
+                ctx.violation("R08.5", fi.short, f"col_rel_width inherit overwrites: {path_of(B)[:50]}", fi.where(node), "RTFDocument.__init__: a header's own col_rel_width is overwritten by the body's widths (not only when it is None)")
+    need = {("default", "single"), ("broadcast", "single"), ("inherit", "single"), ("default", "multi"), ("broadcast", "multi"), ("inherit", "multi")}
+    missing = sorted(need - kinds)
+    if missing and not any(f.rule == "R08.5" for f in ctx.findings):
+        ctx.gap("R08.5", f"RTFDocument.__init__: default / broadcast / inherit of col_rel_width not re-identified for {missing}")
 
 
 def check(ctx: Ctx) -> None:
     ctx.explain(
-        "Decided by interpreting the row builders on mock components (tablecore.Scen; no repository code runs). R08.1 every cell built by "
-        "TableAttributes._encode ends at col_widths[j], the spanning row is one cell ending at the width it is given; every call of a row "
-        "encoder passes rtf_page.col_width (expressions are expanded through temporaries and if/else arms); inside encode_column_header / "
-        "encode_footnote / encode_source the boundaries are Utils._col_widths(component's own col_rel_width, the width given); the body's "
-        "boundaries are Utils._col_widths(displayed columns' relative widths, rtf_page.col_width) and reach pagination/rendering. R08.2 the "
-        "automatic header of a page with removed columns carries the page's reduced widths. R08.3 widths and attribute matrices are cut at "
-        "the original positions of the removed columns (mock frame, two removed columns, both set iteration orders). R08.4 _col_widths and "
-        "\\cellx evaluated at exact rational test points. R08.5 default/broadcast/inherit of col_rel_width in RTFDocument.__init__ on mock "
-        "single- and multi-section documents.")
+        "R08.1 the generic cell built by TableAttributes._encode ends at col_widths[j] and the spanning row is one cell ending at the width it is given "
+        "(terms of the symbolic evaluation); every call of a row encoder passes rtf_page.col_width (structural: expressions expanded through temporaries "
+        "and if/else arms); inside encode_column_header / encode_footnote / encode_source the boundaries are Utils._col_widths(component's own "
+        "col_rel_width, the width given) on every path that encodes rows; the body's boundaries are Utils._col_widths(displayed columns' relative "
+        "widths, rtf_page.col_width) and reach pagination/rendering. R08.2 one generic header of _render_column_headers: an automatic header (text from "
+        "the page's displayed columns) takes the page's reduced widths. R08.3 widths and attribute matrices are cut at the original positions of the "
+        "removed columns (structural / dataflow rule). R08.4 _col_widths as a symbolic running sum, \\cellx as round(width * 1440). R08.5 the stores into "
+        "col_rel_width in RTFDocument.__init__ (default / broadcast from the body's own frame, headers inherit from their own section's body).")
     ctx.assume("rtf_page.col_width is always set by RTFPage._set_default (the `or 8.5` fallbacks are dead)")
-    ctx.assume("polars select/drop/clone/shape/columns behave as documented; BroadcastValue's validator normalises values to nested lists (tablecore.nested_list_form)")
+    ctx.assume("component._set_default() returns the component itself; model_copy() / .copy() / deepcopy return an object with the same field values")
     ctx.undecided("proportionality to within one twip and equality of the last boundary with col_width for concrete widths (float arithmetic)")
     r08_1(ctx)
     r08_2(ctx)
